@@ -159,104 +159,242 @@ def decision_table(ctx, r3, bucket_names):
     r3.need(16)
 
 
+def candidate_loop(b):
+    """(header, body blocks, bucket locals) of the loop of resolve_overload that pushes candidates into the tier vectors"""
+    from .lib.facts import callee_name, op_place
+    from .lib import mirq
+    pushes = []
+    for i, tm in b.calls():
+        if (callee_name(tm) or '').endswith('Vec::<T, A>::push') and tm['args']:
+            pushes.append((i, tm))
+    loops = [(h, body) for h, body in natural_loops(b) if any(pb in body for pb, _ in pushes)]
+    if not loops:
+        return None
+    h, body = max(loops, key=lambda x: len(x[1]))
+    return h, body, [(i, tm) for i, tm in pushes if i in body]
+
+
+def mut_targets(b, local, depth=8):
+    """the locals a `&mut` reference local may point to (through re-borrows and branches that pick one of several)"""
+    from .lib.facts import op_place
+    out = set()
+    seen = set()
+    todo = [local]
+    while todo:
+        l = todo.pop()
+        if l in seen:
+            continue
+        seen.add(l)
+        for kind, bb, idx, x in b.defs().get(l, []):
+            if kind != 'stmt':
+                continue
+            rv = x['rv']
+            if rv['k'] == 'ref':
+                pl = rv['place']
+                if not pl['p']:
+                    out.add(pl['l'])
+                elif pl['p'] == ['*']:
+                    todo.append(pl['l'])
+                else:
+                    out.add(pl['l'])
+            elif rv['k'] == 'use' and op_place(rv['op']) is not None:
+                todo.append(op_place(rv['op'])['l'])
+    return out
+
+
+def loop_discipline(ctx, r1, r2, r4):
+    """R05.1 / R05.2 / R05.4 on the MIR of resolve_overload.
+    R05.1: state that survives an iteration of the candidate loop is written only by Vec::push (tier vectors, failure list)
+           and by the loop's own iterator;
+    R05.2: the loop is left only when the iterator is exhausted, by error propagation, or under a branch that reads
+           spec.short_circuit_overloads;
+    R05.4: no branch inside the loop is computed from the tier vectors / failure list (what earlier candidates left)."""
+    from .lib.facts import callee_name, op_place, op_local
+    from .lib import mirq
+    bs = ctx.mir.find('compilation_scope::CompilationScope::resolve_overload')
+    if len(bs) != 1:
+        r1.fail('anchor/resolve_overload-mir', F, 'MIR body of resolve_overload not found (%d)' % len(bs))
+        return None
+    b = bs[0]
+    cl = candidate_loop(b)
+    if cl is None:
+        r1.fail('anchor/loop-mir', F, 'candidate loop not found in the MIR')
+        return None
+    h, body, pushes = cl
+    dbg = {}
+    for v in b.dbg:
+        if 'l' in v['val'] and not v['val']['p']:
+            dbg.setdefault(v['val']['l'], v['name'])
+
+    def nm(l):
+        return dbg.get(l) or '_%d' % l
+    # locals that exist outside the loop: defined or used in a block outside the loop body
+    outside = set()
+    for i, bl in enumerate(b.blocks):
+        if i in body or bl.get('cleanup'):
+            continue
+        for s in bl['stmts']:
+            for mode, pl in mirq.places_in_stmt(s):
+                outside.add(pl['l'])
+        for mode, pl in mirq.places_in_term(bl['term']):
+            outside.add(pl['l'])
+    flags = {l for l, ds in b.defs().items() if b.local_ty(l) == 'bool' and all(k == 'stmt' and x['rv']['k'] == 'use' and 'const' in x['rv']['op'] for k, _, _, x in ds)}
+    carried = set()
+    # (a) mutable borrows of outside locals taken inside the loop: what receives them?
+    n1 = 0
+    for i in sorted(body):
+        bl = b.blocks[i]
+        for j, s in enumerate(bl['stmts']):
+            if s['k'] == 'assign' and s['rv']['k'] == 'ref' and s['rv'].get('mut'):
+                tgt = s['rv']['place']['l']
+                tgts = {tgt} if not s['rv']['place']['p'] or s['rv']['place']['p'] != ['*'] else mut_targets(b, tgt)
+                tgts = {x for x in tgts if x in outside and x not in flags and x > b.d['argc']}
+                if not tgts:
+                    continue
+                ref_local = s['place']['l']
+                cons = mirq.consumers(ctx.mir, b, ref_local, depth=0)
+                cons = {c for c in cons if not c.startswith('<discriminant')}
+                ok = all(c.endswith('Vec::push') or c.endswith('Iterator>::next') or c.endswith('::next') or c.endswith('::deref_mut') or c.endswith('::as_mut') for c in cons) and bool(cons)
+                pushy = any(c.endswith('Vec::push') for c in cons)
+                if pushy:
+                    carried |= tgts
+                n1 += 1
+                r1.inst({'mutable_borrow_of': sorted(nm(x) for x in tgts), 'handed_to': sorted(c.split('::')[-1] for c in cons)}, ok=ok, kind=('borrow', i, j))
+                if not ok:
+                    r1.fail('loop/mutation/%s' % '-'.join(sorted(nm(x) for x in tgts)), mirq.site(b, i, j), 'inside the candidate loop %s is mutably borrowed for %s: state other than pushing a candidate survives an iteration, so the outcome can depend on the order in which candidates are visited' % (sorted(nm(x) for x in tgts), sorted(c.split('::')[-1] for c in cons) or 'an unrecognised use'))
+            # (b) direct assignments to outside locals
+            if s['k'] == 'assign' and not s['place']['p']:
+                l = s['place']['l']
+                if l in outside and l not in flags and l > b.d['argc'] and b.name_of_local(l):
+                    # a named variable declared outside the loop and assigned inside it
+                    first_def_outside = any(bb not in body for k, bb, idx, x in b.defs().get(l, []))
+                    if first_def_outside:
+                        n1 += 1
+                        r1.inst({'assignment_to': nm(l)}, ok=False, kind=('assign', l))
+                        r1.fail('loop/assign-%s' % nm(l), mirq.site(b, i, j), 'the candidate loop assigns to `%s`, which is declared outside the loop (order-dependent state)' % nm(l))
+    r1.need(2)
+    # R05.2 exits
+    defs = b.defs()
+    exits = []
+    for u in sorted(body):
+        for x in b.succs()[u]:
+            if x not in body and b.blocks[x]['term']['k'] not in ('unreachable',):
+                exits.append((u, x))
+    for u, x in exits:
+        tm = b.blocks[u]['term']
+        kind = None
+        if tm['k'] == 'switch':
+            dl = op_local(tm['discr'])
+            for k0, bb0, i0, st in defs.get(dl, []) if dl is not None else []:
+                if k0 == 'stmt' and st['rv']['k'] == 'discr':
+                    for k2, bb2, i2, x2 in defs.get(st['rv']['place']['l'], []):
+                        if k2 == 'call' and re.search(r'(^|::)next$', strip_generics(callee_name(x2) or '')):
+                            kind = 'iterator exhausted'
+        if kind is None:
+            # error propagation: the exit path goes through FromResidual::from_residual before returning
+            reach = b.reachable(x, avoid=body)
+            if any((callee_name(t2) or '').endswith('from_residual') for bb2, t2 in b.calls() if bb2 in reach or bb2 == u) and not any((callee_name(t2) or '').endswith('prepare_return') for bb2, t2 in b.calls() if bb2 in reach or bb2 == u):
+                kind = 'error propagation (?)'
+        if kind is None:
+            # a value is returned from inside the loop: only under spec.short_circuit_overloads
+            guards = []
+            for d in sorted(b.dominators().get(u, ())) + [u]:
+                if d not in body:
+                    continue
+                tmd = b.blocks[d]['term']
+                if tmd['k'] != 'switch':
+                    continue
+                dl = op_local(tmd['discr'])
+                if dl is None:
+                    continue
+                names = set()
+                todo = [dl]
+                seen = set()
+                while todo:
+                    l = todo.pop()
+                    if l in seen:
+                        continue
+                    seen.add(l)
+                    for k0, bb0, i0, st in defs.get(l, []):
+                        if k0 != 'stmt':
+                            continue
+                        for mode, pl in mirq.places_in_stmt(st):
+                            if mode == 'r':
+                                names |= {e.get('n') for e in pl['p'] if isinstance(e, dict) and 'n' in e}
+                                todo.append(pl['l'])
+                if 'short_circuit_overloads' in names:
+                    guards.append(d)
+            if guards:
+                # the exit must be reachable only through the TRUE edge of such a branch: cut those edges and see whether the
+                # exit block can still be reached from the loop header inside the loop
+                cut = set()
+                for g in guards:
+                    tg = b.blocks[g]['term']
+                    zero = [xx for v, xx in tg['targets'] if int(v) == 0]
+                    true_targets = {tg['otherwise']} | {xx for v, xx in tg['targets'] if int(v) != 0}
+                    if not zero:
+                        true_targets = {xx for v, xx in tg['targets'] if int(v) != 0}
+                    for tt in true_targets:
+                        cut.add((g, tt))
+                seen_b = set()
+                todo_b = [h]
+                while todo_b:
+                    cur = todo_b.pop()
+                    if cur in seen_b:
+                        continue
+                    seen_b.add(cur)
+                    for nx in b.succs()[cur]:
+                        if nx in body and (cur, nx) not in cut:
+                            todo_b.append(nx)
+                kind = 'short-circuit stub' if ((u, x) in cut or u not in seen_b) else None
+            else:
+                kind = None
+        r2.inst({'exit_from': mirq.site(b, u), 'kind': kind or 'unconditional / other condition'}, ok=kind is not None, kind=('exit', u, x))
+        if kind is None:
+            r2.fail('loop/early-return', mirq.site(b, u), 'the candidate loop can be left with a result before all candidates were considered, under a condition that is not spec.short_circuit_overloads: later candidates are never looked at (declaration-order dependence)')
+    r2.need(2)
+    # R05.4
+    n4 = 0
+    for d in sorted(body):
+        tmd = b.blocks[d]['term']
+        if tmd['k'] != 'switch':
+            continue
+        dl = op_local(tmd['discr'])
+        if dl is None:
+            continue
+        sl = mirq.backslice(b, [dl])
+        hit = sorted(nm(x) for x in sl & carried)
+        n4 += 1
+        r4.inst({'branch': mirq.site(b, d), 'depends_on_collected_candidates': hit}, ok=not hit, kind=('switch', d))
+        if hit:
+            r4.fail('loop/branch-on-%s' % '-'.join(hit), mirq.site(b, d), 'a branch inside the candidate loop is computed from %s, i.e. from what earlier candidates left behind: the treatment of a candidate depends on the candidates visited before it' % hit)
+    r4.need(3)
+    return {nm(x) for x in carried}
+
+
 def run(ctx):
     ast = ctx.ast
     ctx.explanation = ('The outcome of resolve_overload is shown to depend only on the multiset of matching candidates: loop-carried state is '
                        'push-only, no early return except the documented short-circuit stubs, singleton test before taking, ambiguity otherwise, fixed tier order.')
     ctx.trusted = ['syn parse', 'that spec.bind matches exactly the right candidates is C04\'s concern']
-    fns = [fn for f, fn, im in astq.all_fns(ast) if f == F and fn['name'] == 'resolve_overload']
     r1 = ctx.rule('R05.1', 'candidate loop carries state only through push on buckets / failures')
+    r2 = ctx.rule('R05.2', 'the only return inside the loop is under spec.short_circuit_overloads')
+    r4 = ctx.rule('R05.4', 'no branch inside the candidate loop depends on what earlier candidates left in the buckets')
+    buckets = loop_discipline(ctx, r1, r2, r4)
+    if buckets is None:
+        return
+    fns = [fn for f, fn, im in astq.all_fns(ast) if f == F and fn['name'] == 'resolve_overload']
     if len(fns) != 1:
         r1.fail('anchor/resolve_overload', F, 'resolve_overload not found')
         return
     fn = fns[0]
     loops = [n for n, ps in find_nodes(fn['body'], lambda y: y.get('k') == 'for') if not any(p.get('k') in ('fn', 'closure') for p in ps)]
     loops = [l for l in loops if 'overloads' in src(l['iter'])]
-    if len(loops) != 1:
-        r1.fail('anchor/loop', '%s:%d' % (F, fn['line']), 'candidate loop not found')
-        return
-    loop = loops[0]
-    # names declared before the loop at function level
-    outer = set()
-    outer_mut = set()
-    for st in fn['body']:
-        if st is loop:
-            break
-        if st.get('k') == 'let':
-            for p, _ in find_nodes(st['pat'], lambda y: y.get('k') == 'pident'):
-                outer.add(p['name'])
-                if p.get('mut'):
-                    outer_mut.add(p['name'])
-    buckets = {n for n in outer if n.endswith('_matches')}
-    pushes = []
-    for n, ps in find_nodes(loop['body'], lambda y: y.get('k') == 'mcall'):
-        base = n['recv']
-        while base.get('k') in ('paren', 'ref', 'field'):
-            base = base.get('expr') or base.get('base')
-        if n['method'] in ('push', 'insert', 'extend', 'clear', 'remove', 'swap_remove', 'pop', 'truncate', 'retain', 'sort', 'append', 'drain'):
-            tgt = None
-            names = [x['path'] for x, _ in find_nodes(n['recv'], lambda y: y.get('k') == 'path')]
-            tgt = [x for x in names if x in outer_mut]
-            if tgt:
-                pushes.append((n['method'], tuple(tgt), n['line']))
-    for meth, tgt, line in pushes:
-        ok = meth == 'push' and all(t in buckets or t == 'dynamic_failures' for t in tgt)
-        r1.inst({'mutation': meth, 'targets': tgt}, ok=ok, kind=(meth, tgt))
-        if not ok:
-            r1.fail('loop/%s-%s' % (meth, '-'.join(tgt)), '%s:%d' % (F, line), 'the candidate loop mutates %s with %s: the outcome could depend on the order in which candidates are visited' % (tgt, meth))
-    for n, ps in find_nodes(loop['body'], lambda y: y.get('k') == 'assign' or (y.get('k') == 'binary' and y['op'].endswith('=') and y['op'] not in ('==', '!=', '<=', '>='))):
-        names = [x['path'] for x, _ in find_nodes(n['left'], lambda y: y.get('k') == 'path')]
-        tgt = [x for x in names if x in outer]
-        if tgt:
-            r1.inst({'assignment': src(n)[:60]}, ok=False)
-            r1.fail('loop/assign-%s' % '-'.join(tgt), '%s:%d' % (F, n['line']), 'the candidate loop assigns to %s declared outside the loop (order-dependent state)' % tgt)
-    r1.need(2)
-
-    # ---------------- R05.2
-    r2 = ctx.rule('R05.2', 'the only return inside the loop is under spec.short_circuit_overloads')
-    for n, ps in find_nodes(loop['body'], lambda y: y.get('k') in ('return', 'break')):
-        if any(p.get('k') == 'closure' for p in ps):
-            continue
-        conds = [src(p['cond']) for p in ps if p.get('k') == 'if']
-        ok = any(c == 'spec.short_circuit_overloads' for c in conds)
-        r2.inst({'exit': n['k'], 'line': n['line'], 'conditions': conds}, ok=ok, kind=n['line'] - loop['line'])
-        if not ok:
-            r2.fail('loop/early-%s' % n['k'], '%s:%d' % (F, n['line']), 'the candidate loop is left early under %s: later candidates are never considered (declaration-order dependence)' % (conds or 'no condition'))
-    # `?` inside the loop can only abort with an error; `continue` skips a candidate on a per-candidate condition
-    r2.need(1)
+    loop = loops[0] if len(loops) == 1 else None
 
     # ---------------- R05.3 (decision table over the MIR; independent of the syntactic form of the selection code)
     r3 = ctx.rule('R05.3', 'take only from singleton buckets; >1 is ambiguity; exact before generic; else NoOverload')
     decision_table(ctx, r3, buckets)
-
-    # ---------------- R05.4
-    r4 = ctx.rule('R05.4', 'bucket choice depends on (is_generic, is_unknown) only')
-    def is_bucket_ref(stmts):
-        if len(stmts) != 1:
-            return False
-        e = stmts[0]
-        return e.get('k') == 'ref' and e.get('mut') and e['expr'].get('k') == 'path' and e['expr']['path'] in buckets
-    sel = []
-    for n, ps in find_nodes(loop['body'], lambda y: y.get('k') == 'if'):
-        el = n.get('else')
-        if el and el.get('k') == 'block' and is_bucket_ref(n['then']) and is_bucket_ref(el['stmts']):
-            sel.append(n)
-    if not sel:
-        r4.fail('loop/bucket-choice', '%s:%d' % (F, loop['line']), 'bucket selection expression not found')
-    for n in sel[:1]:
-        names = {x['path'] for x, _ in find_nodes(n['cond'], lambda y: y.get('k') == 'path')}
-        ok = names <= {'is_generic', 'is_unknown'} and names
-        r4.inst({'bucket_choice_condition': src(n['cond'])}, ok=bool(ok))
-        if not ok:
-            r4.fail('loop/bucket-condition', '%s:%d' % (F, n['line']), 'the bucket is chosen by %s, not by (is_generic, is_unknown) alone' % sorted(names))
-    for st in fn['body']:
-        if st.get('k') == 'let' and st['pat'].get('k') == 'pident' and st['pat']['name'] == 'is_unknown':
-            names = {x['path'] for x, _ in find_nodes(st['init'], lambda y: y.get('k') == 'path')}
-            ok = names <= {'arg_types', 't'}
-            r4.inst({'is_unknown_depends_on': sorted(names)}, ok=ok)
-            if not ok:
-                r4.fail('is_unknown/deps', '%s:%d' % (F, st['line']), 'is_unknown depends on %s besides the argument types' % sorted(names - {'arg_types', 't'}))
-    r4.need(2)
 
     # ---------------- R05.5
     r5 = ctx.rule('R05.5', 'own overloads before parent overloads; candidates never indexed by position')
